@@ -82,6 +82,30 @@ Theorem C10_ext_embeds : forall e d, to_textx (of_ldoc d) = to_text d /\ to_binx
 Proof. intros e d. split; [apply of_ldoc_text|apply of_ldoc_bin]. Qed.
 Print Assumptions C10_ext_embeds.
 
+(* ... and LogicDoc.shared / enc_ok / wf_ldoc / norgb_fields are the corresponding predicates of the fragment: every hypothesis
+   of Props/C10_link.v's theorems implies the hypothesis of the theorems of this file on the embedded document *)
+Theorem C10_ext_subsumes_logicdoc : forall tp decode pf cfg sh e d,
+  (shared decode pf cfg sh d -> xshared tp decode pf cfg sh (of_ldoc d)) /\
+  (enc_ok decode cfg e d -> enc_okx decode cfg e (of_ldoc d)) /\
+  wf_xdoc (of_ldoc d) = wf_ldoc d /\ (norgb_fields d = true -> rgbpos (of_ldoc d) = true).
+Proof.
+  intros. split; [apply shared_embed|]. split; [apply enc_embed|]. split; [apply wf_embed|apply rgbpos_embed].
+Qed.
+Print Assumptions C10_ext_subsumes_logicdoc.
+
+(* hence C10_text_bin_agree_partial restated over spec_value2 is an instance of C10_ext_text_bin_agree_stream *)
+Theorem C10_ext_logicdoc_five_paths : forall decode pf cfg sh d e cap sched,
+  wf_ldoc d = true -> norgb_fields d = true -> shared decode pf cfg sh d -> enc_ok decode cfg e d ->
+  BinReader.no_fail sched = true -> BinLexer.fits cap (BinDoc.enc_doc (fst (to_bin e d)) (snd (to_bin e d))) = true ->
+  let v := spec_value2 false decode pf (c_fops cfg) sh (to_text d) in
+  let b := BinDoc.enc_doc (fst (to_bin e d)) (snd (to_bin e d)) in
+  v <> Err EC_UNFIT /\
+  TextDeTape.deser_tape decode pf (c_fops cfg) sh (TextDoc.flatten (to_text d)) = v /\
+  TextDeStream.deser_stream decode pf (c_fops cfg) sh (tokens (to_text d)) = v /\
+  BinDeTape.deser_tape cfg sh b = v /\ BinDeOndemand.deser_ondemand cfg sh b = v /\ BinDeReader.deser_reader cfg cap sched sh b = v.
+Proof. exact logicdoc_five_paths. Qed.
+Print Assumptions C10_ext_logicdoc_five_paths.
+
 (* the renderings are what the walk theorems need *)
 Theorem C10_ext_renderings_wf : forall decode cfg e d,
   wf_xdoc d = true -> rgbpos d = true -> enc_okx decode cfg e d ->
